@@ -197,18 +197,32 @@ func (l *vfE5Life) meta() string {
 	return "meta " + strings.Join(ts, ";")
 }
 
-// vfE5Files lists the backends that own at least one file under dir ("t" or "t:c").
+// vfE5Files lists the backends that own at least one file under dir ("t" or "t:c"); a backend
+// whose only remaining files are go-diskqueue's quarantined `*.bad` files is marked "name!bad".
 func vfE5Files(dir string) string {
 	ents, _ := os.ReadDir(dir)
-	set := map[string]bool{}
+	good := map[string]bool{}
+	bad := map[string]bool{}
 	for _, e := range ents {
+		if os.Getenv("VERIF_FILES_FULL") != "" {
+			fmt.Printf("E5FILE %s\n", e.Name())
+		}
 		if i := strings.Index(e.Name(), ".diskqueue."); i >= 0 {
-			set[e.Name()[:i]] = true
+			if strings.HasSuffix(e.Name(), ".bad") {
+				bad[e.Name()[:i]] = true
+			} else {
+				good[e.Name()[:i]] = true
+			}
 		}
 	}
 	var names []string
-	for k := range set {
+	for k := range good {
 		names = append(names, k)
+	}
+	for k := range bad {
+		if !good[k] {
+			names = append(names, k+"!bad")
+		}
 	}
 	sort.Strings(names)
 	return "files " + strings.Join(names, ",")
